@@ -256,7 +256,17 @@ def _cgdp(ctx, repo):
         okz = False
         if zero:
             fz = {(norm(t), p) for t, p in facts_at(ff, zero[0])}
-            okz = any(t.endswith(".hosting_cost(comp) == 0") and p for t, p in fz) and any(("== assigned_agent" in t and not p) or ("!= assigned_agent" in t and p) for t, p in fz)
+            # excluded from every OTHER agent: the inner agent differs from the pinning one (named through a local or directly)
+            pin_agent = next((t.split(".hosting_cost(")[0] for t, p in fz if t.endswith(".hosting_cost(comp) == 0") and p), None)
+            same = {"assigned_agent", f"{pin_agent}.name"}
+            def _differs(t, p):
+                for op, want in ((" == ", False), (" != ", True)):
+                    if op in t and p is want:
+                        l, r = t.split(op, 1)
+                        if (l in same) != (r in same) and (l.endswith(".name") or r.endswith(".name")):
+                            return True
+                return False
+            okz = pin_agent is not None and any(_differs(t, p) for t, p in fz)
         ctx.check(ok and okz, "R-HARD", "zero hosting cost pins the computation on that agent and excludes it from every other agent", f, pins[0],
                   "hard rule of the method: computations with zero hosting cost are pinned")
     # ---- linearisation ------------------------------------------------------------------
